@@ -84,6 +84,27 @@ class TypeRef:
     names: tuple  # python type tags accepted by isinstance
 
 
+# pure string functions of os.path: modelled as opaque terms over their arguments (two calls with the same
+# arguments give the same term, different arguments different terms)
+OS_PATH_PURE = ("os.path.abspath", "os.path.join", "os.path.dirname", "os.path.basename", "os.path.normpath", "os.path.realpath", "os.path.splitext", "os.path.normcase", "os.path.expanduser")
+
+
+def _snum_key(d: dict, k: "SNum"):
+    """The key of ``d`` that a symbolic number ``k`` denotes, or None when it differs from every numeric
+    key by a non-zero constant.  A key that may or may not coincide (non-constant difference) cannot be decided."""
+    for ex in list(dict.keys(d)):
+        if isinstance(ex, bool) or not isinstance(ex, (int, float, SNum)):
+            continue
+        diff = _num(k) - _num(ex)
+        if not isinstance(diff, SNum):
+            diff = SNum.const(diff)
+        if not diff.terms:
+            return ex
+        if not diff.is_const():
+            raise AnalysisError(f"symbolic key {k!r} may or may not equal the existing key {ex!r}")
+    return None
+
+
 def really_unhashable(k: Any, node=None):
     """The exception to raise when hashing ``k`` failed inside the analyser: Python's own TypeError
     only when the key holds a list / dict / set; otherwise the analyser's objects are the obstacle."""
@@ -791,6 +812,8 @@ class Frame:
             return self.I.decide(v.truth, descr and f"{descr} [{v}]")
         if isinstance(v, ReprDict):
             return self.I.decide(lambda: _undecided(f"{v!r} is non-empty"), f"{descr} [{v!r} non-empty]") if v.missing == "undecided" else bool(v.items_)
+        if isinstance(v, SObj) and v.pytype == "re.MaybeMatch":
+            return self.truth(v.attrs["_b"], descr)
         if isinstance(v, (SObj, Inst, FuncRef, ModRef, TypeRef)):
             return True
         if isinstance(v, SOpaque):
@@ -910,7 +933,7 @@ class Frame:
             return TypeRef(("int", "float", "bool"))
         if short in EXC_BASES or short.endswith("Error") or short in ("Exception", "UnexpectedInput"):
             return FuncRef(None, builtin="exc:" + short)
-        if full in BUILTINS or full.startswith(("logging.", "warnings.")) or full in ("os.getcwd",):
+        if full in BUILTINS or full.startswith(("logging.", "warnings.")) or full in ("os.getcwd",) or full in OS_PATH_PURE:
             return FuncRef(None, builtin=full)
         if full in ("logging", "os", "sys", "json", "copy", "codecs", "click", "glob", "warnings", "functools", "itertools", "jsonschema", "jsonref", "os.path"):
             return ModRef("ext:" + full)
@@ -918,6 +941,8 @@ class Frame:
             return None
         if full == "itertools.zip_longest":
             return FuncRef(None, builtin="zip_longest")
+        if full in ("itertools.groupby", "itertools.chain", "itertools.chain.from_iterable"):
+            return FuncRef(None, builtin=full.split("itertools.")[1])
         if full == "typing.Any" or full.startswith("typing."):
             return SOpaque("typing")
         if full == "__file__":
@@ -1041,7 +1066,12 @@ class Frame:
                 if I.decide(lambda: kk.member_of([x for x in obj.keys() if isinstance(x, (str, SStr))]), f"{kk.describe()} in dict keys"):
                     raise AnalysisError(f"symbolic key {kk!r} may equal an existing key of a concrete dict")
                 raise PyExc("KeyError", (kk,), node)
-            if isinstance(kk, (SNum, SObj)):
+            if isinstance(kk, SNum):
+                hit = _snum_key(obj, kk)
+                if hit is not None:
+                    return dict.__getitem__(obj, hit)
+                raise PyExc("KeyError", (kk,), node)
+            if isinstance(kk, SObj):
                 raise AnalysisError(f"symbolic key {kk!r} on concrete dict")
             try:
                 if kk in obj:
@@ -1188,6 +1218,11 @@ class Frame:
                 return _simplify(av.repeat(b, a))
             if is_num_like(a) and is_num_like(b):
                 return _num(a) * _num(b) if (isinstance(a, SNum) or isinstance(b, SNum)) else a * b
+            for seq, cnt in ((a, b), (b, a)):
+                if isinstance(seq, (list, tuple)) and is_num_like(cnt):
+                    if isinstance(cnt, SNum):
+                        raise AnalysisError("sequence repeated a symbolic number of times")
+                    return seq * int(cnt)
             raise PyExc("TypeError", (f"{pytype_of(a)} * {pytype_of(b)}",))
         if isinstance(op, ast.Div):
             if is_num_like(a) and is_num_like(b):
@@ -1262,6 +1297,11 @@ class Frame:
     def compare(self, op: ast.cmpop, a: Any, b: Any, descr: str) -> bool:
         I = self.I
         if isinstance(op, (ast.Is, ast.IsNot)):
+            # the result of a regex search on unknown text: a match object or None, one decision per path
+            for x, y in ((a, b), (b, a)):
+                if isinstance(x, SObj) and x.pytype == "re.MaybeMatch" and y is None:
+                    is_none = not self.truth(x.attrs["_b"])
+                    return is_none if isinstance(op, ast.Is) else not is_none
             if a is None or b is None or isinstance(a, bool) or isinstance(b, bool):
                 if isinstance(a, SBool) or isinstance(b, SBool):
                     sb = a if isinstance(a, SBool) else b
@@ -1336,6 +1376,8 @@ class Frame:
             k = I.dict_key(coll, item)
             if isinstance(k, SStr):
                 return k.member_of(list(coll.keys()))
+            if isinstance(k, SNum):
+                return _snum_key(coll, k) is not None
             try:
                 return k in coll
             except TypeError:
